@@ -159,6 +159,9 @@ bool Action::stop() {
   if (timer_ev_ != nullptr)
     timer_ev_->disable();
 
+  //! 已经排队但尚未执行的阻塞通知不能在 stop() 之后再送达
+  cancelDispatchedCallback();
+
   is_base_func_invoked_ = false;
 
   onStop();
